@@ -16,11 +16,12 @@
 //!
 //! ```text
 //! mgr <bdd|bcdd|zbdd> vars=<n> [cap=<c>]     new manager (C: manager_new + add_vars)            ok
-//! addvars k | addnamed n1 n2 … ('-' = unnamed)                                    a..b [dup=<v|->]
-//! numvars | numnamed | varname v | name2var s | setname v s | v2l v | l2v l
+//! addvars k | addnamed n1 n2 … ('-' = unnamed) [iter=1: add_named_vars_iter]      a..b [dup=<v|->]
+//! numvars | numnamed | varname v [cb=1: with_var_name] | name2var s | setname v s | v2l v | l2v l
 //! order v…                                   set_var_order                        new level→var map
 //! const h T|F | var h v | notvar h v | zconst h empty|base | singleton h v        tree | INVALID
 //! op h not a | op h <and|or|…> a b | op h ite a b c                              tree | INVALID
+//! pool h a b                                 oxidd_*_and called inside run_in_worker_pool
 //! quant h <forall|exists|unique> a vs | applyq h <q> <op> a b vs | restrict h a c (BDD, BCDD)
 //! mksubst s v=h … | subst h a s | dropsubst s                                    (BDD, BCDD)
 //! subset0|subset1|change h a v | union|intsec|diff h a b | mknode h var hi lo     (ZBDD)
@@ -30,13 +31,29 @@
 //! show a | tt a                              canonical tree / truth table (hex) through the C API
 //! ref a | unref a | mref | munref | cmgr a   reference counting                    ok
 //! gc                                         collect, then num_inner_nodes         count
-//! dddmp a b … | dot a b … | import a b …     export (compared with the Rust export), re-import
+//! dddmp a b … [names=1] [v=3] [iter=1] | dot a b … [iter=1] | import a b …
+//!                                            export (DDDMP compared byte for byte with the Rust
+//!                                            API's export; iter=1: the `_iter` variants), re-import
 //! invalid h                                  an INVALID handle from an exhausted tiny manager
 //! end                                        unref everything, gc: remaining nodes
 //! ```
 //!
 //! Every output line ends with ` | o<k> m<j>`: the number of C-owned function references and of
 //! C-owned manager references according to the documentation-level ledger.
+//!
+//! Oracles (signatures): `capi-differs` (C result ≠ Rust API result: tree, truth table, counts,
+//! names, exported bytes), `capi-node-balance` (after `gc`/`end` the manager holds exactly the
+//! nodes reachable from the C-owned references and substitution objects; at `end`: none, ZBDD:
+//! the tautology chain), `capi-node-count-differs` (C side and Rust side manager hold the same
+//! number of nodes after every line), `capi-arg-consumed` / `capi-handle-changed` (arguments and
+//! all live handles still denote what they denoted), `capi-invalid-not-propagated`,
+//! `capi-invalid-changed-state`, `capi-unexpected-invalid`, `capi-make-node-leak` (node balance
+//! failures after `make_node` ran on a path on which /repo's wrapper does not take `hi`/`lo`
+//! over), `capi-cap0-not-unlimited`, `capi-crash` / `capi-hang` (the child process died / did
+//! not answer).
+//!
+//! `run` rebuilds the library from /repo's working tree first (`cargo build -p oxidd-ffi-c` into
+//! /verif/harness/target-ffi) unless `--no-build` is given; `--lib <path>` selects another file.
 
 use oxv::*;
 use std::collections::{BTreeMap, BTreeSet};
@@ -137,6 +154,53 @@ struct CDddmpSettings {
     diagram_name: CStr,
 }
 
+/// `oxidd_opt_*`
+#[repr(C)]
+struct COpt<T: Copy> {
+    is_some: bool,
+    value: std::mem::MaybeUninit<T>,
+}
+#[repr(C)]
+struct CSizeHint {
+    lower: usize,
+    upper: usize,
+}
+/// `oxidd_iter_*`
+#[repr(C)]
+struct CIter<T: Copy> {
+    next: extern "C" fn(*mut c_void) -> COpt<T>,
+    size_hint: Option<extern "C" fn(*mut c_void) -> CSizeHint>,
+    context: *mut c_void,
+}
+/// `oxidd_named_*`
+#[repr(C)]
+#[derive(Clone, Copy)]
+struct CNamed {
+    func: CF,
+    name: CStr,
+}
+/// iterator state on our side
+struct IterCtx<T: Copy> {
+    items: Vec<T>,
+    pos: usize,
+}
+extern "C" fn iter_next<T: Copy>(ctx: *mut c_void) -> COpt<T> {
+    let c = unsafe { &mut *(ctx as *mut IterCtx<T>) };
+    if c.pos < c.items.len() {
+        c.pos += 1;
+        COpt { is_some: true, value: std::mem::MaybeUninit::new(c.items[c.pos - 1]) }
+    } else {
+        COpt { is_some: false, value: std::mem::MaybeUninit::uninit() }
+    }
+}
+extern "C" fn iter_hint<T: Copy>(ctx: *mut c_void) -> CSizeHint {
+    let c = unsafe { &*(ctx as *const IterCtx<T>) };
+    CSizeHint { lower: c.items.len() - c.pos, upper: c.items.len() - c.pos }
+}
+fn make_iter<T: Copy>(ctx: &mut IterCtx<T>, with_hint: bool) -> CIter<T> {
+    CIter { next: iter_next::<T>, size_hint: if with_hint { Some(iter_hint::<T>) } else { None }, context: ctx as *mut IterCtx<T> as *mut c_void }
+}
+
 type F1 = unsafe extern "C" fn(CF) -> CF;
 type F2 = unsafe extern "C" fn(CF, CF) -> CF;
 type F3 = unsafe extern "C" fn(CF, CF, CF) -> CF;
@@ -195,6 +259,12 @@ struct Api {
     export_dddmp: unsafe extern "C" fn(CM, *const c_char, usize, *const CF, usize, *const *const c_char, *const CDddmpSettings, *mut CError) -> bool,
     import_dddmp: unsafe extern "C" fn(CM, *mut c_void, *const u32, *mut CF, *mut CError) -> bool,
     dump_all_dot_path: unsafe extern "C" fn(CM, *const c_char, usize, *const CF, *const *const c_char, usize, *mut CError) -> bool,
+    export_dddmp_iter: unsafe extern "C" fn(CM, *const c_char, usize, CIter<CF>, *const CDddmpSettings, *mut CError) -> bool,
+    export_dddmp_with_names_iter: unsafe extern "C" fn(CM, *const c_char, usize, CIter<CNamed>, *const CDddmpSettings, *mut CError) -> bool,
+    dump_all_dot_path_iter: unsafe extern "C" fn(CM, *const c_char, usize, CIter<CNamed>, *mut CError) -> bool,
+    add_named_vars_iter: unsafe extern "C" fn(CM, CIter<CStr>) -> CDup,
+    with_var_name: unsafe extern "C" fn(CM, u32, extern "C" fn(*mut c_void, *const c_char, usize) -> *mut c_void, *mut c_void) -> *mut c_void,
+    run_in_worker_pool: unsafe extern "C" fn(CM, extern "C" fn(*mut c_void) -> *mut c_void, *mut c_void) -> *mut c_void,
     var: MV,
     not_var: MV,
     false_: M0,
@@ -295,6 +365,12 @@ fn load_api(lib: &Lib, kind: &'static str) -> Result<Api, String> {
         export_dddmp: req!("manager_export_dddmp"),
         import_dddmp: req!("manager_import_dddmp"),
         dump_all_dot_path: req!("manager_dump_all_dot_path"),
+        export_dddmp_iter: req!("manager_export_dddmp_iter"),
+        export_dddmp_with_names_iter: req!("manager_export_dddmp_with_names_iter"),
+        dump_all_dot_path_iter: req!("manager_dump_all_dot_path_iter"),
+        add_named_vars_iter: req!("manager_add_named_vars_iter"),
+        with_var_name: req!("manager_with_var_name"),
+        run_in_worker_pool: req!("manager_run_in_worker_pool"),
         var: req!("var"),
         not_var: req!("not_var"),
         false_: req!("false"),
@@ -1127,11 +1203,19 @@ impl Real {
                 format!("{}..{}", r.start, r.end)
             }
             ("addnamed", _) => {
-                let names: Vec<String> = w[1..].iter().map(|s| if *s == "-" { String::new() } else { s.to_string() }).collect();
+                let use_iter = w.contains(&"iter=1");
+                let names: Vec<String> = w[1..].iter().filter(|s| !s.contains('=')).map(|s| if *s == "-" { String::new() } else { s.to_string() }).collect();
                 let cs: Vec<CString> = names.iter().map(|s| CString::new(s.as_str()).unwrap()).collect();
                 // an unnamed variable is passed as NULL or as the empty string, alternating
                 let ptrs: Vec<*const c_char> = cs.iter().enumerate().map(|(i, c)| if names[i].is_empty() && i % 2 == 0 { null() } else { c.as_ptr() }).collect();
-                let r = unsafe { (api.add_named_vars)(cm, ptrs.as_ptr(), ptrs.len() as u32) };
+                let r = if use_iter {
+                    // `oxidd_*_manager_add_named_vars_iter` with borrowed, not null-terminated strings
+                    let mut ctx = IterCtx { items: names.iter().map(|s| CStr { ptr: if s.is_empty() { null() } else { s.as_ptr() as *const c_char }, len: s.len() }).collect(), pos: 0 };
+                    rep.count("iter_api_calls");
+                    unsafe { (api.add_named_vars_iter)(cm, make_iter(&mut ctx, true)) }
+                } else {
+                    unsafe { (api.add_named_vars)(cm, ptrs.as_ptr(), ptrs.len() as u32) }
+                };
                 let rr = self.rs.as_mut().unwrap().add_named(&names);
                 if (r.added.start, r.added.end, r.present_var) != rr {
                     rep.fail("capi-differs", &format!("add_named_vars: C {}..{} present {}, Rust {}..{} present {}", r.added.start, r.added.end, r.present_var, rr.0, rr.1, rr.2));
@@ -1153,10 +1237,30 @@ impl Real {
                 }
                 c.to_string()
             }
-            ("varname", 2) => {
+            ("varname", 2) | ("varname", 3) => {
                 let v = num(w[1])?;
                 if v >= n {
                     return None;
+                }
+                if w.len() == 3 {
+                    // `oxidd_*_manager_with_var_name`: the name is only borrowed inside the callback
+                    if w[2] != "cb=1" {
+                        return None;
+                    }
+                    extern "C" fn cb(data: *mut c_void, p: *const c_char, len: usize) -> *mut c_void {
+                        let out = unsafe { &mut *(data as *mut String) };
+                        let bytes = if len == 0 { &[][..] } else { unsafe { std::slice::from_raw_parts(p as *const u8, len) } };
+                        *out = String::from_utf8_lossy(bytes).into_owned();
+                        data
+                    }
+                    let mut got = String::from("?");
+                    let ret = unsafe { (api.with_var_name)(cm, v, cb, &mut got as *mut String as *mut c_void) };
+                    let r = self.rs.as_ref().unwrap().var_name(v);
+                    if got != r || ret != &mut got as *mut String as *mut c_void {
+                        rep.fail("capi-differs", &format!("with_var_name({v}): callback saw {got:?}, Rust {r:?}"));
+                    }
+                    rep.count("callback_api_calls");
+                    return Some(if got.is_empty() { "-".into() } else { got });
                 }
                 let mut len = usize::MAX;
                 let p = unsafe { (api.var_name)(cm, v, &mut len) };
@@ -1298,6 +1402,46 @@ impl Real {
             }
             ("op", _) | ("quant", 5) | ("applyq", 7) | ("restrict", 4) | ("pick", 3) | ("pickset", 4) | ("coft", 3) | ("cofe", 3) | ("subset0", 4) | ("subset1", 4) | ("change", 4) | ("union", 4) | ("intsec", 4) | ("diff", 4) | ("mknode", 5) => {
                 self.op_fn(line, w, rep)?
+            }
+            ("pool", 4) => {
+                // `pool h a b`: `oxidd_*_and(a, b)` executed from inside the manager's worker pool
+                // (`oxidd_*_manager_run_in_worker_pool`, the documented way to batch operations)
+                if self.h.contains_key(w[1]) {
+                    return None;
+                }
+                let (ca, ra) = self.get(w[2])?;
+                let (cb, rb) = self.get(w[3])?;
+                struct Job {
+                    and: F2,
+                    a: CF,
+                    b: CF,
+                    res: CF,
+                    ran: bool,
+                }
+                extern "C" fn job(data: *mut c_void) -> *mut c_void {
+                    let j = unsafe { &mut *(data as *mut Job) };
+                    j.res = unsafe { (j.and)(j.a, j.b) };
+                    j.ran = true;
+                    data
+                }
+                let mut j = Job { and: api.bin[0].1, a: ca, b: cb, res: INVALID, ran: false };
+                let nn0 = unsafe { (api.num_inner_nodes)(cm) };
+                let ret = unsafe { (api.run_in_worker_pool)(cm, job, &mut j as *mut Job as *mut c_void) };
+                if !j.ran || ret != &mut j as *mut Job as *mut c_void {
+                    rep.fail("capi-worker-pool", &format!("`{line}`: the callback did not run or its result was not returned"));
+                }
+                let bad = !ca.ok() || !cb.ok();
+                let rr = match (ra, rb) {
+                    (Some(x), Some(y)) if !bad => self.rs.as_mut().unwrap().op("and", &[x, y], 0, None),
+                    _ => None,
+                };
+                if bad {
+                    self.invalid_unchanged(rep, line, nn0, j.res.ok());
+                }
+                rep.count("callback_api_calls");
+                let out = self.put(rep, line, w[1], j.res, rr, bad);
+                self.check_args(rep, line, &[w[2], w[3]]);
+                out
             }
             ("cof", 4) => {
                 if self.h.contains_key(w[1]) || self.h.contains_key(w[2]) || w[1] == w[2] {
@@ -1743,6 +1887,11 @@ impl Real {
         let hs: Vec<&str> = w[1..].iter().copied().filter(|x| !x.contains('=')).collect();
         let named = opts.contains(&"names=1");
         let v3 = opts.contains(&"v=3");
+        // the `_iter` variants of the exports take the functions through a C iterator
+        let use_iter = opts.contains(&"iter=1");
+        if use_iter {
+            rep.count("iter_api_calls");
+        }
         let mut cs = Vec::new();
         let mut rsl = Vec::new();
         for a in &hs {
@@ -1769,7 +1918,12 @@ impl Real {
         let nn0 = unsafe { (api.num_inner_nodes)(cm) };
         let out = match w[0] {
             "dot" => {
-                let ok = unsafe { (api.dump_all_dot_path)(cm, cpath.as_ptr() as *const c_char, cpath.len(), cs.as_ptr(), fptrs.as_ptr(), cs.len(), err.as_mut_ptr()) };
+                let ok = if use_iter {
+                    let mut ctx = IterCtx { items: cs.iter().zip(&fnames).map(|(f, nm)| CNamed { func: *f, name: CStr { ptr: nm.as_ptr(), len: nm.as_bytes().len() } }).collect(), pos: 0 };
+                    unsafe { (api.dump_all_dot_path_iter)(cm, cpath.as_ptr() as *const c_char, cpath.len(), make_iter(&mut ctx, false), err.as_mut_ptr()) }
+                } else {
+                    unsafe { (api.dump_all_dot_path)(cm, cpath.as_ptr() as *const c_char, cpath.len(), cs.as_ptr(), fptrs.as_ptr(), cs.len(), err.as_mut_ptr()) }
+                };
                 let msg = take_err(err);
                 if !ok {
                     rep.fail("capi-dot", &format!("`{line}`: dump_all_dot_path failed: {msg}"));
@@ -1791,7 +1945,15 @@ impl Real {
             "dddmp" | "import" => {
                 let name = "capi";
                 let set = CDddmpSettings { version: if v3 { 1 } else { 0 }, ascii: true, strict: false, diagram_name: CStr { ptr: name.as_ptr() as *const c_char, len: name.len() } };
-                let ok = unsafe { (api.export_dddmp)(cm, cpath.as_ptr() as *const c_char, cpath.len(), cs.as_ptr(), cs.len(), if named { fptrs.as_ptr() } else { null() }, &set, err.as_mut_ptr()) };
+                let ok = if use_iter && named {
+                    let mut ctx = IterCtx { items: cs.iter().zip(&fnames).map(|(f, nm)| CNamed { func: *f, name: CStr { ptr: nm.as_ptr(), len: nm.as_bytes().len() } }).collect(), pos: 0 };
+                    unsafe { (api.export_dddmp_with_names_iter)(cm, cpath.as_ptr() as *const c_char, cpath.len(), make_iter(&mut ctx, true), &set, err.as_mut_ptr()) }
+                } else if use_iter {
+                    let mut ctx = IterCtx { items: cs.clone(), pos: 0 };
+                    unsafe { (api.export_dddmp_iter)(cm, cpath.as_ptr() as *const c_char, cpath.len(), make_iter(&mut ctx, true), &set, err.as_mut_ptr()) }
+                } else {
+                    unsafe { (api.export_dddmp)(cm, cpath.as_ptr() as *const c_char, cpath.len(), cs.as_ptr(), cs.len(), if named { fptrs.as_ptr() } else { null() }, &set, err.as_mut_ptr()) }
+                };
                 if any_invalid {
                     // documented: `false` and an error naming the invalid function
                     let msg = take_err(err);
@@ -2549,7 +2711,7 @@ impl<'a> Gen<'a> {
                 let l = match self.rng.below(6) {
                     0 => format!("setname {v} {nm}"),
                     1 => format!("setname {v} -"),
-                    2 => format!("varname {v}"),
+                    2 => format!("varname {v}{}", if self.rng.chance(1, 3) { " cb=1" } else { "" }),
                     3 => format!("name2var {nm}"),
                     4 => "numnamed".to_string(),
                     _ => "numvars".to_string(),
@@ -2572,14 +2734,16 @@ impl<'a> Gen<'a> {
                     2 => format!("dot {a} {b}"),
                     _ => format!("import {a} {b}"),
                 };
-                self.emit(&l);
+                let it = if self.rng.chance(1, 3) && !l.starts_with("import") { " iter=1" } else { "" };
+                self.emit(&format!("{l}{it}"));
             }
             99 if self.n < 6 && !self.tiny && self.kind != "zbdd" => {
                 if self.rng.chance(1, 2) {
                     self.emit("addvars 1");
                 } else {
                     let nm = *self.rng.pick(&NAMES);
-                    self.emit(&format!("addnamed {nm}"));
+                    let it = if self.rng.chance(1, 2) { " iter=1" } else { "" };
+                    self.emit(&format!("addnamed {nm}{it}"));
                     // a duplicate name adds nothing: ask the manager
                 }
                 // the number of variables may or may not have grown: stop predicting
@@ -2590,7 +2754,11 @@ impl<'a> Gen<'a> {
                 self.n_unknown();
             }
             _ => {
-                self.emit(&format!("op {h} and {a} {b}"));
+                if self.rng.chance(1, 2) {
+                    self.emit(&format!("pool {h} {a} {b}"));
+                } else {
+                    self.emit(&format!("op {h} and {a} {b}"));
+                }
                 let t = self.tt_of(&a).zip(self.tt_of(&b)).map(|(x, y)| x & y);
                 self.def(&h, t);
             }
@@ -2714,7 +2882,7 @@ fn enumerated(w: &mut dyn Write, kind: &'static str) {
         "op n not a", "op i ite a b c", "tt i", "count i", "sat i", "valid i", "sat f", "valid t", "satcount i 3", "satcount i 5", "satcount t 3", "pickvec i", "pickvec f", "pickvec t",
         "pick p i", "pick pf f", "eval i 101", "eval i 010", "level i", "nvar i", "level t", "nvar t", "cof c1 c2 i", "coft ct i", "cofe ce i", "cof d1 d2 t", "coft dt t", "cofe de f",
         "op x1 and d1 a", "level d1", "ref i", "ref i", "gc", "unref i", "gc", "unref i", "gc", "unref i", "gc", "cmgr a", "mref", "munref", "munref",
-        "dddmp a b r2", "dddmp a r2 names=1 v=3", "dot a r2", "import a r2 r5",
+        "dddmp a b r2", "dddmp a r2 names=1 v=3", "dot a r2", "import a r2 r5", "dddmp a b r2 iter=1", "dddmp a r2 names=1 iter=1", "dot a r2 iter=1", "pool pl a b", "tt pl",
     ] {
         p(l);
     }
@@ -2742,7 +2910,7 @@ fn enumerated(w: &mut dyn Write, kind: &'static str) {
     p(&format!("mgr {kind} vars=3"));
     for l in [
         "var a 0", "var b 1", "op g xor a b", "invalid z", "show z", "op i0 not z", "op i1 and z a", "op i2 or a z", "op i3 xor z z", "op i4 ite z a b", "op i5 ite a z b", "op i6 ite a b z", "op i7 imp_strict g z",
-        "pick i8 z", "pickset i9 z a", "pickset i10 a z", "cof j1 j2 z", "coft j3 z", "cofe j4 z", "level z", "nvar z", "ref z", "unref z", "count z", "dddmp a z", "dddmp z", "dot a z g",
+        "pick i8 z", "pickset i9 z a", "pickset i10 a z", "cof j1 j2 z", "coft j3 z", "cofe j4 z", "level z", "nvar z", "ref z", "unref z", "count z", "dddmp a z", "dddmp z", "dot a z g", "dddmp a z iter=1", "dddmp z a names=1 iter=1", "dot z a iter=1", "pool p1 z a", "pool p2 a z",
         "op k0 and i0 a", "op k1 not k0", "unref k1", "gc",
     ] {
         p(l);
@@ -2786,7 +2954,7 @@ fn enumerated(w: &mut dyn Write, kind: &'static str) {
     p(&format!("mgr {kind} vars=2"));
     for l in [
         "numvars", "numnamed", "varname 0", "setname 0 x", "setname 1 x", "setname 1 y", "setname 0 x", "numnamed", "varname 0", "varname 1", "name2var x", "name2var y", "name2var nope", "name2var -",
-        "addnamed p - q", "numvars", "numnamed", "addnamed r x s", "numvars", "numnamed", "varname 5", "setname 0 -", "name2var x", "numnamed", "setname 0 y", "setname 1 x", "name2var y", "addvars 1",
+        "addnamed p - q", "numvars", "numnamed", "addnamed r x s", "numvars", "numnamed", "varname 5", "varname 5 cb=1", "varname 3 cb=1", "addnamed u - x w iter=1", "numvars", "addnamed - - iter=1", "numvars", "setname 0 -", "name2var x", "numnamed", "setname 0 y", "setname 1 x", "name2var y", "addvars 1",
         "numvars", "v2l 3", "l2v 3", "var a 5", "show a", "setname 0 renamed", "name2var x", "name2var renamed", "numnamed",
     ] {
         p(l);
